@@ -497,6 +497,7 @@ func newAPI() *serix.API {
 	must(a.RegisterTypeSettings(JMaps{}, ts.WithObjectType(uint8(0x21))))
 	must(a.RegisterTypeSettings(Custom{}, ts.WithObjectType(uint8(0x33))))
 	must(a.RegisterTypeSettings(Root{}, ts.WithObjectType(uint8(0x7F))))
+	registerOddTypes(a)
 	must(a.RegisterTypeSettings(Chips{}, ts.WithLengthPrefixType(serix.LengthPrefixTypeAsByte)))
 	must(a.RegisterTypeSettings(CellMap{}, ts.WithLengthPrefixType(serix.LengthPrefixTypeAsByte)))
 	return a
@@ -955,3 +956,52 @@ func (c *Cell) Decode(b []byte) (int, error) {
 }
 
 type CellMap map[Cell]uint16 // lenPrefix uint8
+
+// ---------------------------------------------------------------------------------------------
+// Odd but legal registrations, outside the modelled zoo (used by the `oddtypes` legs, which judge them by hand-made
+// images): a struct whose fields are all optional as a slice element; a slice of a named one-byte type that carries
+// ordering and uniqueness rules; a slice that asks for lexical ordering without the matching array rule; pointers to a
+// struct that has a syntactic validator, alone and as elements of a slice with a must-occur rule.
+
+type OptOnly struct {
+	A *uint8  `serix:",optional"`
+	B *uint16 `serix:",optional"`
+}
+type OptOnlys []OptOnly // lenPrefix uint32
+
+type Flag uint8
+type Flags []Flag // lenPrefix uint8; no duplicates, lexical order (validated, and imposed by the encoder)
+
+type Pair struct {
+	A uint8 `serix:""`
+	B uint8 `serix:""`
+}
+type LexPairs []Pair // lenPrefix uint8; WithLexicalOrdering(true), no lexical array rule
+
+type VInner struct {
+	V uint8 `serix:"v"`
+}
+type VInnerPtrs []*VInner // lenPrefix uint8; must-occur: type 5
+type Boxed struct {
+	P    *VInner    `serix:"p,optional"`
+	Ptrs VInnerPtrs `serix:"ptrs"`
+}
+
+func registerOddTypes(a *serix.API) {
+	ts := serix.TypeSettings{}
+	must(a.RegisterTypeSettings(OptOnlys{}, ts.WithLengthPrefixType(serix.LengthPrefixTypeAsUint32)))
+	must(a.RegisterTypeSettings(Flags{}, ts.WithLengthPrefixType(serix.LengthPrefixTypeAsByte).WithLexicalOrdering(true).WithArrayRules(&serix.ArrayRules{
+		ValidationMode: serializer.ArrayValidationModeNoDuplicates | serializer.ArrayValidationModeLexicalOrdering,
+	})))
+	must(a.RegisterTypeSettings(LexPairs{}, ts.WithLengthPrefixType(serix.LengthPrefixTypeAsByte).WithLexicalOrdering(true)))
+	must(a.RegisterTypeSettings(VInner{}, ts.WithObjectType(uint8(5))))
+	must(a.RegisterTypeSettings(VInnerPtrs{}, ts.WithLengthPrefixType(serix.LengthPrefixTypeAsByte).WithArrayRules(&serix.ArrayRules{
+		MustOccur: serializer.TypePrefixes{5: struct{}{}},
+	})))
+	must(a.RegisterValidator(VInner{}, func(_ context.Context, in VInner) error {
+		if in.V > 200 {
+			return fmt.Errorf("inner: V too large")
+		}
+		return nil
+	}))
+}
